@@ -33,15 +33,20 @@ Definition model_unit_factor (c : Z) : Q :=
   else if (c =? 110)%Z then 1 # 1000000000
   else 1.
 
+(* step_x of step n after the unit conversion *)
+Definition model_stepf (incr equal : bool) (steps : list Q) (count n c : Z) : Q :=
+  model_unit_factor c * model_step_x incr equal steps count n.
+
 (* sum_{k=1..n} f k *)
 Fixpoint sum_to (f : Z -> Q) (n : nat) : Q :=
   match n with O => 0 | S m => sum_to f m + f (Z.of_nat (S m)) end.
 
-(* total amount of reaction that has entered the system when `nsteps` reaction steps have been made *)
-Definition total_amount (stepf : bool -> bool -> list Q -> Z -> Z -> Q) (unitf : Z -> Q)
+(* total amount of reaction that has entered the system when `nsteps` reaction steps have been made;
+   stepf incr equal steps count n units = step_x of step n after the unit conversion *)
+Definition total_amount (stepf : bool -> bool -> list Q -> Z -> Z -> Z -> Q)
            (incr equal : bool) (steps : list Q) (count units : Z) (nsteps : nat) : Q :=
-  unitf units * (if incr then sum_to (stepf true equal steps count) nsteps
-                 else stepf false equal steps count (Z.of_nat nsteps)).
+  if incr then sum_to (fun k => stepf true equal steps count k units) nsteps
+  else stepf false equal steps count (Z.of_nat nsteps) units.
 
 Lemma sum_to_ext f g n : (forall k, (1 <= k <= Z.of_nat n)%Z -> f k == g k) -> sum_to f n == sum_to g n.
 Proof.
